@@ -49,15 +49,33 @@ public:
 		doSort();
 	}
 
+	// Moves one item in. This list is always sorted, so instead of linking the item at `pos`
+	// and sorting afterwards, the place where that (stable) sort would leave it is looked up
+	// first. The comparison is user code and may throw: then neither list has changed, and
+	// a failed EventQueue::enqueue leaves the queue as it was.
 	void splice(const_iterator pos, OrderedQueueList & other, const_iterator it) {
-		super::splice(pos, other, it);
-		doSort();
+		const ItemLess less { Compare() };
+		bool reachedPos = false;
+		const_iterator where = super::begin();
+		for(; where != super::end(); ++where) {
+			if(where == pos) {
+				reachedPos = true;
+			}
+			if(less(*it, *where)) {
+				break;
+			}
+			// An equal item stays in front of the new one only if it is in front of `pos`.
+			if(reachedPos && ! less(*where, *it)) {
+				break;
+			}
+		}
+		super::splice(where, other, it);
 	}
 
 private:
-	void doSort() {
-		auto compare = Compare();
-		this->sort([compare](const T & a, const T & b) {
+	struct ItemLess
+	{
+		bool operator() (const T & a, const T & b) const {
 			// a and b may be empty if they are recycled to free list.
 			if(a.empty()) {
 				if(b.empty()) {
@@ -70,7 +88,13 @@ private:
 			}
 
 			return compare(a.get(), b.get());
-		});
+		}
+
+		Compare compare;
+	};
+
+	void doSort() {
+		this->sort(ItemLess { Compare() });
 	}
 };
 
